@@ -1447,3 +1447,102 @@ def judge_temporal(case, impl):
     if impl["out"] == "accepted" and impl["expect_ok"] and impl.get("normal") is False:
         fails.append((f"extras:temporal:normal-form:{site}", f"{site} given {impl['value']} reads back {impl.get('stored')}, documented {impl.get('expected_norm')}"))
     return fails
+
+
+# ------------------------------------------------------------------ C02 / C01: FLOAT multiplesOf steps (oracle-only)
+# The Lean model's domain is an int multiplesOf; a float step is documented the same way ("the number must be a multiple of
+# this number") and decided in float arithmetic: value / step is integral.  The documented decision is computed here,
+# independently, by float division; steps that are not powers of two (0.1, 0.01, 0.3, 2.5 ...) are where `%` and `/` differ.
+
+FSTEPS = [0.1, 0.01, 0.25, 0.5, 2.5, 0.3, 0.001, 1.5, 0.2, 3.0]
+FSTEP_KINDS = ["float", "number", "positive-float"]
+FSTEP_WRAPS = ["bare", "array", "map", "optional", "anyof-then-str"]
+
+
+def _fstep_values(step):
+    vals = []
+    for k in (0, 1, 2, 3, 5, 7, 10, 15, 20, 50, 100, 150, 1000, -1, -3, -10):
+        vals.append(k * step)                     # the float product
+        vals.append(round(k * step, 6))           # the decimal spelling a user writes (0.5, 1.0, 0.05 ...)
+    vals += [step / 2, step * 1.5, step + 1e-9, 0.05, 0.5, 1.0, 1.5, 2, 3, 10, 7, -2, 0, True, 0.75, 1e-3, 123.456]
+    out = []
+    for v in vals:
+        if not any(type(v) is type(w) and v == w for w in out):
+            out.append(v)
+    return out
+
+
+def fstep_expected(kind, step, v):
+    """documented decision: a number (not bool for Float) whose quotient by the step is integral in float arithmetic"""
+    if kind in ("float", "positive-float"):
+        if isinstance(v, bool) or not isinstance(v, (int, float)):
+            return False, None
+        x = float(v)
+    else:
+        if not isinstance(v, (int, float)):
+            return False, None
+        x = v
+    q = x / step
+    ok = (q == int(q))
+    if kind == "positive-float" and not x > 0:
+        ok = False
+    return ok, x
+
+
+def floatstep_cases():
+    out = []
+    for si in range(len(FSTEPS)):
+        for kind in FSTEP_KINDS:
+            for wrap in FSTEP_WRAPS:
+                n = len(_fstep_values(FSTEPS[si]))
+                for vi in range(n):
+                    if wrap != "bare" and vi % 3 != (si + len(wrap)) % 3:
+                        continue
+                    out.append({"suite": "extras-floatstep", "step": si, "kind": kind, "wrap": wrap, "value": vi})
+    return out
+
+
+def run_floatstep(case):
+    from typedpy import Number, PositiveFloat
+    step = FSTEPS[case["step"]]
+    kind, wrap = case["kind"], case["wrap"]
+    v = _fstep_values(step)[case["value"]]
+    mk = {"float": lambda: Float(multiplesOf=step), "number": lambda: Number(multiplesOf=step), "positive-float": lambda: PositiveFloat(multiplesOf=step)}[kind]
+    try:
+        field = {"bare": mk, "array": lambda: Array[mk()], "map": lambda: Map[String(), mk()], "optional": lambda: AnyOf[mk(), NoneField()],
+                 "anyof-then-str": lambda: AnyOf[mk(), String()]}[wrap]()
+        cls = type("FS", (Structure,), {"f": field, "_required": []})
+    except Exception as e:
+        return {"skip": f"class: {type(e).__name__}: {e}"[:200]}
+    arg = {"bare": v, "array": [v], "map": {"k": v}, "optional": v, "anyof-then-str": v}[wrap]
+    leaf = {"bare": lambda s: s, "array": lambda s: s[0], "map": lambda s: s["k"], "optional": lambda s: s, "anyof-then-str": lambda s: s}[wrap]
+    exp_ok, exp_norm = fstep_expected(kind, step, v)
+    res = {"site": f"{wrap}>{kind}", "step": step, "value": repr(v), "expect_ok": exp_ok}
+    try:
+        x = cls(f=arg)
+        stored = leaf(x.f)
+        res["out"] = "accepted"
+        res["stored"] = repr(stored)
+        res["normal"] = bool(type(stored) is type(exp_norm) and stored == exp_norm) if exp_ok else None
+    except Exception as e:
+        res["out"] = "rejected"
+        res["exc"] = type(e).__name__
+        res["documented_exc"] = isinstance(e, (TypeError, ValueError))
+        res["msg"] = str(e)[:160]
+    return res
+
+
+def judge_floatstep(case, impl):
+    if "skip" in impl:
+        return []
+    site, fails = impl["site"], []
+    what = f"{site}(multiplesOf={impl['step']}) given {impl['value']}"
+    if impl["out"] == "rejected" and not impl["documented_exc"]:
+        fails.append((f"extras:wrong-exception:{impl['exc']}:ctor:floatstep:{site}", f"{what} raised {impl['exc']}: {impl['msg']}"))
+    if impl["out"] == "accepted" and not impl["expect_ok"]:
+        fails.append((f"extras:floatstep:accepts-undocumented:{site}", f"{what} is accepted (stored {impl.get('stored')}) although value / step is not integral"))
+    if impl["out"] == "rejected" and impl["expect_ok"]:
+        fails.append((f"extras:floatstep:rejects-documented:{site}", f"{what} is rejected ({impl.get('exc')}: {impl.get('msg')}) although value / step is integral"))
+    if impl["out"] == "accepted" and impl["expect_ok"] and impl.get("normal") is False:
+        fails.append((f"extras:floatstep:normal-form:{site}", f"{what} reads back {impl.get('stored')}"))
+    return fails
